@@ -11,7 +11,7 @@
    Still open: that in_D is preserved, and that every legal move of a position in D passes refines_b
    (makemove_refines_statement). *)
 From Coq Require Import NArith ZArith List Bool.
-From Rawr Require Import Consts Bits Magic Position MoveGen MakeMove MakeStages Rules Abs AbsFacts MakeFacts MakeAbs CastleFacts CastleAbs GenSane Closure ClosureNull.
+From Rawr Require Import Consts Bits Magic Position MoveGen MakeMove MakeStages Rules Abs AbsFacts MakeFacts MakeAbs CastleFacts CastleAbs GenSane Closure ClosureNull EpRetro GenLegal.
 Import ListNotations.
 Local Open Scope N_scope.
 
@@ -111,6 +111,23 @@ Theorem C02_every_sequence_with_null_moves_refines : forall os p, Inv p -> legal
   Inv (fold_left play_op os p) /\ abs_state (fold_left play_op os p) = spec_ops p os (abs_state p).
 Proof. intros os p I H. split; [exact (inv_ops os p I H)|exact (ops_refine os p I H)]. Qed.
 
+(* ---- with NO legality premise (GenLegal.v): the invariant together with the en-passant consistency (`InvR`, executable
+   form `invR_b`) is kept by EVERY move the generator emits -- a generated move never leaves the mover's king attacked
+   (C01_no_generated_move_leaves_the_king_attacked) -- and by the null move played out of check; hence along every sequence
+   of generated moves the result is a structurally valid position in which the side that just moved is not in check, and
+   the abstract state follows the rules *)
+Theorem C02_invariant_is_kept_by_every_generated_move : forall p m, InvR p -> In m (legal_moves p) -> InvR (makemove true p m).
+Proof. exact invR_step. Qed.
+Theorem C02_invariant_is_kept_by_the_null_move_out_of_check : forall p, InvR p -> in_check p = false -> InvR (makenull p).
+Proof. exact invR_null. Qed.
+Theorem C02_every_sequence_of_generated_moves_refines : forall ms p, InvR p -> gen_seq p ms ->
+  InvR (fold_left (makemove true) ms p) /\ abs_state (fold_left (makemove true) ms p) = spec_run p ms (abs_state p).
+Proof. intros ms p I H. split; [exact (gen_run_inv ms p I H)|exact (gen_run_refines ms p I H)]. Qed.
+Theorem C02_executable_invariant_with_ep_sound : forall p, invR_b p = true -> InvR p.
+Proof. exact invR_b_sound. Qed.
+Example C02_invR_startpos : invR_b startpos = true /\ invR_b (after castle_line) = true.
+Proof. split; vm_compute; reflexivity. Qed.
+
 Print Assumptions C02_makenull_spec.
 Print Assumptions C02_makemove_refines_noncastling.
 Print Assumptions C02_makemove_is_its_stages.
@@ -123,3 +140,7 @@ Print Assumptions C02_executable_invariant_sound.
 Print Assumptions C02_every_sequence_refines.
 Print Assumptions C02_null_move_keeps_the_invariant.
 Print Assumptions C02_every_sequence_with_null_moves_refines.
+Print Assumptions C02_invariant_is_kept_by_every_generated_move.
+Print Assumptions C02_invariant_is_kept_by_the_null_move_out_of_check.
+Print Assumptions C02_every_sequence_of_generated_moves_refines.
+Print Assumptions C02_executable_invariant_with_ep_sound.
